@@ -1,5 +1,6 @@
 mod c01;
 mod c02;
+mod c03;
 mod syncmsg;
 mod c05;
 mod c08;
@@ -70,6 +71,7 @@ fn main() {
     match prop.as_str() {
         "C01" => run(c01::C01::new(), &args, 1500, 50000),
         "C02" => run(c02::C02::new(listed_findings("C02")), &args, 3000, 60000),
+        "C03" => run(c03::C03::new(), &args, 1500, 40000),
         "C05" => run(c05::C05::new(), &args, 2500, 40000),
         "C08" => run(c08::C08::new(), &args, 700, 20000),
         "C13" => run(storeprops::StoreProp::new("C13"), &args, 2500, 40000),
